@@ -4,7 +4,7 @@ import io
 
 from ..env import World
 from ..sched import Scheduler
-from ..transit_work import make_pair, hints_of, Result, link_of, FrameMITM, RecordingConsumer, QueueLikeConsumer, Reader
+from ..transit_work import make_pair, hints_of, Result, link_of, FrameMITM, RecordingConsumer, QueueLikeConsumer, TransportLikeConsumer, Reader
 
 PID = "C06"
 LEVEL = "fault_enumeration"
@@ -124,7 +124,8 @@ def run_case(spec):
             consumers[d] = "file"
             dd = rx.writeToFile(f, total, hasher=h.update)
         else:
-            c = QueueLikeConsumer() if rng.random() < 0.2 else RecordingConsumer()
+            x_ = rng.random()
+            c = QueueLikeConsumer() if x_ < 0.2 else (TransportLikeConsumer(rng) if x_ < 0.5 else RecordingConsumer())
             consumers[d] = c
             if plans[d] and rng.random() < 0.4:
                 # a multi-part session: the consumer takes the first k records, the rest is read with
@@ -160,6 +161,8 @@ def run_case(spec):
                         if readers[d].give_up_one() and modes[d] == "early":
                             readers[d].read()        # the application still wants every record: it asks again
                     acts.append((("app", "read-timeout", d), gu))
+                if isinstance(consumers[d], TransportLikeConsumer) and consumers[d].paused:
+                    acts.append((("app", "consumer-drained", d), consumers[d].drained))
                 if modes[d] == "consumer-late" and consumers[d] is None and sent[d] >= len(plans[d]) // 2:
                     acts.append((("app", "attach", d), lambda d=d: attach_consumer(d)))
             return acts
@@ -308,7 +311,7 @@ def run_case(spec):
     return {"violations": viol, "nontrivial": nontrivial,
             "counters": {"records_surfaced": total_surfaced, "tampers_fed": tampers_fed,
                          "clean_complete": int(clean and not viol), "idle_sessions": idled, "reads_given_up": readers[0].given_up + readers[1].given_up, "consumers_attached_after_close": len(late_attach), "zero_length_consumers": zero_consumers[0],
-                         "reads_reissued_from_errback": readers[0].retried + readers[1].retried, "false_consumers": sum(isinstance(c, QueueLikeConsumer) for c in consumers), "reads_issued_on_dropped_connection": sum(len(plans[d]) for d in (0, 1) if modes[d] == "late" and not getattr(conns[1 - d].transport, "connected", 1)) if tamper else 0, "partial_consumers": sum(1 for x in partial if x is not None), "records_sent": sent[0] + sent[1],
+                         "reads_reissued_from_errback": readers[0].retried + readers[1].retried, "false_consumers": sum(isinstance(c, QueueLikeConsumer) for c in consumers), "consumer_pauses_in_write": sum(c.pauses for c in consumers if isinstance(c, TransportLikeConsumer)), "reads_issued_on_dropped_connection": sum(len(plans[d]) for d in (0, 1) if modes[d] == "late" and not getattr(conns[1 - d].transport, "connected", 1)) if tamper else 0, "partial_consumers": sum(1 for x in partial if x is not None), "records_sent": sent[0] + sent[1],
                          "bytes": sum(len(x) for p in plans for x in p), "steps": world.step,
                          **{"mode_" + m: 1 for m in modes}},
             "sample": {"spec": spec, "modes": modes, "sizes0": [len(x) for x in plans[0]][:12], "sizes1": [len(x) for x in plans[1]][:12],
